@@ -85,6 +85,9 @@ example : Ecal.Parse.WellFormed exIf = true ∧ Ecal.Parse.WellFormed exTry2 = t
   decide
 
 /-- … and the refinement theorem speaks about them as compound statements, not leaves -/
-example (f sc : Nat) : ∃ a b, stmtOf (f+2) sc exBody2 = .seq a b := ⟨_, _, rfl⟩
+example (f sc : Nat) : ∃ a b, stmtOf (f+2) sc exBody2 = .seq a b := by
+  refine ⟨stmtOf (f+1) sc exBreak, stmtOf (f+1) sc exNull, ?_⟩
+  conv => lhs; unfold stmtOf
+  simp [exBody2, exNode, Ecal.Parse.Node.name, Ecal.Parse.Node.children, allSome, seqOf]
 
 end Ecal.Props.C04
